@@ -16,7 +16,8 @@ from symex.api import obligation
 ASSUMPTIONS = ["universe: 2 lanelets (1 references sign 10 and light 11), sign, light, intersection 20 with incomings 21/22, "
                "static 30, dynamic 31, phantom 32, environment 33 obstacle; colliding newcomers: lanelet 30, sign 1, "
                "intersection 40 with incoming 31, sign 40, dynamic obstacle 21, environment obstacle 1, phantom 2, static 10, light 30; a replacement network (lanelet 5, sign 10)",
-               "removal operations are applied only to objects currently contained (as the property states)",
+               "removal operations are applied only to objects currently contained (as the property states), except remove_obstacle, "
+               "which the library documents as a warning-only no-op for unknown obstacles",
                "purely discrete state: the engine enumerates all programs (bounded model checking by path exploration)"]
 OUTSIDE = ["histories longer than the bound", "adding lists whose later elements collide (the statement is per object)"]
 STUBS = ["shapely-lite / STRtree-lite behind Lanelet.polygon and the spatial index"]
@@ -98,15 +99,23 @@ class Model:
         return u
 
 
-def _run(V, k, first=None):
+def _run(V, k, first=None, start="full"):
     warnings.filterwarnings("ignore")
     U = Universe()
     sc = Scenario(0.1)
     m = Model()
-    # start from a populated scenario so that short programs reach the interesting states
-    for n in ("L1", "L2", "S10", "T11", "I20", "O30", "O31", "O32", "O33"):
+    # start from a populated scenario so that short programs reach the interesting states; the second start state lacks
+    # two objects and has already drawn one generated id
+    names = ("L1", "L2", "S10", "T11", "I20", "O30", "O31", "O32", "O33")
+    if start == "partial":
+        names = ("L1", "L2", "T11", "I20", "O31", "O32", "O33")
+        m.l1_refs["S"] = set()
+    for n in names:
         sc.add_objects(U.objs[n])
         m.inside[n] = set(U.ids[n])
+    if start == "partial":
+        sc.lanelet_network.cleanup_traffic_sign_references()
+        m.generated.add(sc.generate_object_id())
     for step in range(k):
         op, name = OPS[first if (step == 0 and first is not None) else V.choice(f"op{step}", len(OPS))]
         tag = f"step{step}:{op}:{name}"
@@ -135,6 +144,11 @@ def _run(V, k, first=None):
                     pass
         elif op in ("rm", "rm_list", "rm_lanelet_keep_refs"):
             if name not in m.inside:
+                if U.kind[name] == "O" and op != "rm_lanelet_keep_refs":
+                    # removing an obstacle that is not contained only warns; it must not change anything
+                    sc.remove_obstacle([obj] if op == "rm_list" else obj)
+                    real = sorted(contained_ids(sc))
+                    V.prove("contained ids = model of the id pool", real == sorted(m.used()))
                 continue
             arg = [obj] if op == "rm_list" else obj
             kind = U.kind[name]
@@ -167,6 +181,8 @@ def _run(V, k, first=None):
         elif op == "replace_net":
             if any(n.startswith("N_") for n in m.inside):
                 continue
+            if {5, 10} & {i for n, ids in m.inside.items() if U.kind.get(n) == "O" for i in ids}:
+                continue  # a replacement network whose ids collide with obstacles is outside the statement
             net, ids = U.new_network()
             for n in [n for n in m.inside if U.kind.get(n, "N") in "LSTI"]:
                 del m.inside[n]
@@ -179,21 +195,23 @@ def _run(V, k, first=None):
     V.reach("program completed")
 
 
-def _mk(k, first, tier):
+def _mk(k, first, tier, start):
     op, name = OPS[first]
 
-    @obligation("C09", f"k{k}.first-{op}-{name}", tier=tier, functions=F,
-                bounds=f"all programs of {k} operations starting with {op}({name}) over {len(OPS)} operations")
+    @obligation("C09", f"k{k}.{start}.first-{op}-{name}", tier=tier, functions=F,
+                bounds=f"all programs of {k} operations starting with {op}({name}) over {len(OPS)} operations, from the "
+                       f"{start}ly populated start state")
     def ob(V):
-        _run(V, k, first)
+        _run(V, k, first, start)
 
     return ob
 
 
-for _i in range(len(OPS)):
-    _mk(2, _i, "quick")
-for _i in range(len(OPS)):
-    _mk(3, _i, "thorough")
+for _start in ("full", "partial"):
+    for _i in range(len(OPS)):
+        _mk(2, _i, "quick", _start)
+    for _i in range(len(OPS)):
+        _mk(3, _i, "thorough", _start)
 
 _S = "commonroad.scenario.scenario:Scenario."
 MUTANTS = [
